@@ -372,6 +372,15 @@ func (ca *CertificateAuthority) upload(ctx context.Context, manifest *cpb.GCECer
 		output.Warningf(ctx, "key version exists in manifest %v -> %v", keyVersionName, entry.GetObjectPath())
 	} else {
 		name = ca.certObjectName(cert)
+		// Replacing the certificate object of another key version is never what a new key's upload
+		// is allowed to do, with or without overwrite: until the manifest is written (and for good if
+		// that write fails) the other key version's entry would resolve to this key's certificate.
+		for _, other := range manifest.Entries {
+			if other.ObjectPath == name {
+				return nil, status.Errorf(codes.AlreadyExists, "object %q holds the certificate of key version %q",
+					name, other.KeyVersionName)
+			}
+		}
 	}
 	// The non-root certificates are expected to be in DER format. See the CertificateAuthority
 	// interface.
